@@ -2054,8 +2054,10 @@ int state_check(struct snapraid_state* state, int fix, block_off_t blockstart, b
 
 	error = 0;
 
-	/* skip degenerated cases of empty parity, or skipping all */
-	if (blockstart < blockmax) {
+	/* skip degenerated cases of skipping all */
+	/* but always process an array without parity blocks, as it may still */
+	/* contain empty files, links and empty dirs to check and fix */
+	if (blockstart < blockmax || blockmax == 0) {
 		ret = state_check_process(state, fix, parity_ptr, blockstart, blockmax);
 		if (ret == -1) {
 			/* LCOV_EXCL_START */
